@@ -60,3 +60,34 @@ fn d8_read_only_counters_do_not_crash() {
     assert!(st.success(), "{t}: child ended with {st:?} (a signal means the process crashed)");
   }
 }
+
+// D7 (C09): opening a file that is not a valid arena is refused AND leaves the bytes that were in the file as they were
+#[test]
+fn d7_refused_open_does_not_alter_the_file() {
+  let d = tempfile::tempdir().unwrap();
+  let p = d.path().join("foreign.bin");
+  let mut content = vec![0xEEu8; 256];
+  content[16..20].copy_from_slice(&24u32.to_le_bytes()); // where a header's cursor field would be
+  std::fs::write(&p, &content).unwrap();
+  let r = unsafe { Options::new().with_read(true).with_write(true).map_mut::<unsync::Arena, _>(&p) };
+  assert!(r.is_err(), "a file without the magic text must be refused");
+  drop(r);
+  assert_eq!(std::fs::read(&p).unwrap(), content, "refused open altered the file");
+  // a valid arena file opened with the wrong magic version is refused and left alone too
+  let q = make_file(d.path(), "valid.arena");
+  {
+    // leave stale non-zero bytes above the cursor (rewind keeps them)
+    let a = unsafe { Options::new().with_read(true).with_write(true).map_mut::<unsync::Arena, _>(&q).unwrap() };
+    let mut b = a.alloc_bytes(32).unwrap();
+    b.put_slice(&[0x77u8; 32]).unwrap();
+    unsafe { rarena_allocator::Buffer::detach(&mut b) };
+    drop(b);
+    unsafe { a.rewind(rarena_allocator::ArenaPosition::Current(-32)) };
+    a.flush().unwrap();
+  }
+  let before = std::fs::read(&q).unwrap();
+  let r = unsafe { Options::new().with_read(true).with_write(true).with_magic_version(9).map_mut::<unsync::Arena, _>(&q) };
+  assert!(r.is_err());
+  drop(r);
+  assert_eq!(std::fs::read(&q).unwrap(), before, "refused open (magic version mismatch) altered the file");
+}
